@@ -217,3 +217,24 @@ Definition check_flat_pair (p : pair_case) : list Z :=
 Definition check_ext_pair (p : pair_case) : list Z :=
   let '(b, e) := p in
   check_sim_all b ++ check_sim_all e ++ (if same_devices b e then [] else [91]).
+
+(* ---------- C07 on whole simulations: an interrupt injected at an arbitrary event-loop step.
+   [inj] = (device, real time of the injection, number of device updates that had happened);
+   [reals] = the real time of every update of the trace.  Ticks cost no (virtual) real time,
+   so the device must be updated again at the very instant the interrupt was raised. *)
+Definition inj_case := (sim_case * (comp * Z * Z) * list Z)%type.
+
+Fixpoint drop {A} (n : Z) (l : list A) : list A :=
+  match l with
+  | [] => []
+  | x :: r => if Z.leb n 0 then l else drop (n - 1) r
+  end.
+
+(* 77: the interrupting device is never updated again; 78: it is, but only later in real time *)
+Definition check_inj (c : inj_case) : list Z :=
+  let '(sc, (d, r, pos), reals) := c in
+  let later := combine (drop pos (sc_trace sc)) (drop pos reals) in
+  match filter (fun x : obs * Z => Pos.eqb (fst (fst (fst x))) d) later with
+  | [] => [77]
+  | (_, real) :: _ => if Z.eqb real r then [] else [78]
+  end.
